@@ -14,7 +14,7 @@ variable {m n : Nat} [NeZero m] [NeZero n]
 /-- the regenerated function for ARBITRARY numeric arrays in the two vector parameters: the body of the model -/
 theorem tie_weights_outrank_body (A : Mat m n α) (wv : Vec n α) (ov : Vec n α) (a b : Fin m) :
     (Gen.weights_outrank ⟨A⟩ ⟨wv⟩ ⟨ov⟩).v a b = Electre.worBody wv (fun j => decide (ov j = 1)) A a b := by
-  simp only [Gen.weights_outrank, Np.pair_fill, Np.where, Np.equal, Np.less, Np.less_equal, Np.sum, Np.multiply, Bc.zw, Red.red,
+  simp only [Gen.weights_outrank, Np.pair_fill, Np.where, Np.equal, Np.less, Np.less_equal, Np.sum, Np.sum_all, SumAll.sumAll, Np.multiply, Bc.zw, Red.red,
     HLe.le, Truthy.t, EMul.emul, id, Electre.worBody]
   rcases lt_trichotomy a b with h | h | h
   · have hne : a ≠ b := ne_of_lt h
